@@ -231,6 +231,15 @@ func (t *Tags) RemoveAllTags() {
 func (t Tags) Clone() Tags {
 	clone := make([]Tag, len(t))
 	copy(clone, t)
+	for i := range clone {
+		// List values, like the points of a path, are slices, which
+		// would otherwise be shared between the clone and the original.
+		if es, ok := clone[i].Value.AnyExpression.(Expressions); ok {
+			copied := make(Expressions, len(es))
+			copy(copied, es)
+			clone[i].Value.AnyExpression = copied
+		}
+	}
 	return clone
 }
 
